@@ -44,7 +44,11 @@ def poison_cases(ctx, nmax, exhaustive):
                         if variant:
                             qa['group'] = [('fld', 'a', 0)]
                     elif cl == 'aggconv':
-                        qa['kind'] = ('select', [('agg', ['SUM', 'AVG'][variant], ['SUM', 'AVG'][variant], ('fld', 'a', 1))])
+                        # every aggregate that converts its argument to a number must fail AT the offending record (inside the loop)
+                        ak = r.choice(['SUM', 'AVG', 'MIN', 'MAX', 'VARIANCE', 'MEDIAN'][variant::2])
+                        qa['kind'] = ('select', [('agg', ak, ak, ('fld', 'a', 1))])
+                        if r.random() < 0.4:
+                            qa['group'] = [('fld', 'a', 0)]
                     elif cl == 'update_rhs':
                         qa['kind'] = ('update', [(0, ('int', ('fld', 'a', 1)))])
                     elif cl == 'update_target':
